@@ -34,6 +34,10 @@ TECHNIQUE += '; recognition of precompiled fnmatch.translate patterns'
 EXPLANATION += ' R1 recognises patterns precompiled with re.compile(fnmatch.translate(p)) and requires .match/.fullmatch (translate anchors the end only).'
 TECHNIQUE += "; finite-domain evaluation of the selection routine against a registry modelled from the modules' PATTERNS"
 EXPLANATION += " R1's decision table is evaluated: _select_format_module is interpreted on several hundred (file name, operation, explicit format) combinations built from every registered pattern (plain, inside a directory whose name matches a pattern, with prefix / suffix, upper-cased), with FORMAT_MODULES modelled from the modules' own PATTERNS and entry points; the result must be the documented module or FileFormatError.  The structural part of R1 keeps the effect discipline (no I/O in the selector) and the place of the selection in the API functions."
+# --- metadata added for batch 7
+TECHNIQUE += '; decorator and registry-builder evaluation on model modules; selection decision table'
+EXPLANATION += " Added: (R7) the documenting decorators attach the declared lists unchanged (evaluated; `<function>.guaranteed` in a declaration is resolved to that function's own declaration); (R8) file-name patterns are the frozen documented ones and disjoint per operation (spec/patterns.json); (R9) the registry builders evaluated on a model package listing; (R10) `_select_format_module` / `_select_input_module` as decision tables on a model registry."
+# --- end metadata batch 7
 TRUSTED = ["CPython ast parser", "pkgutil.iter_modules yields modules in sorted name order", "fnmatch glob semantics (* ? [seq])"]
 
 OPS = ("load_one", "load_many", "dump_one", "dump_many")
